@@ -16,6 +16,10 @@ PAYLOADS = {
     'inner': ('Inner', ['Inner::A', 'Inner::B', 'Inner::C']),
     'obool': ('Option<bool>', ['None', 'Some(false)', 'Some(true)']),
     'i8': ('i8', ['-128', '-1', '0', '127']),
+    'tup': ('(u8, bool)', ['(0, false)', '(0, true)', '(1, false)']),
+    'arr': ('[u8; 2]', ['[0, 0]', '[0, 1]', '[1, 0]']),
+    'tup1': ('(u8,)', ['(0,)', '(200,)']),
+    'otup': ('Option<(bool, u8)>', ['None', 'Some((false, 9))', 'Some((true, 0))']),
 }
 RANGE = {'u8': (0, 255), 'i8': (-128, 127), 'u16': (0, 65535), 'i16': (-32768, 32767), 'u32': (0, 2**32 - 1), 'i32': (-2**31, 2**31 - 1),
          'u64': (0, 2**64 - 1), 'i64': (-2**63, 2**63 - 1), 'usize': (0, 2**64 - 1), 'isize': (-2**63, 2**63 - 1)}
@@ -184,7 +188,7 @@ def generate(tier):
                     for cfg in (cfgs if tier != 'quick' else [cfgs[k % 4]]):
                         cases.append(build([var], repr, discs, cfg))
     # C: two variants over {unit, tuple(P), named{P}}
-    sub = ['bool', 'char', 'ref', 'nz', 'onz', 'u8', 'unit'] if tier == 'quick' else plist
+    sub = ['bool', 'char', 'ref', 'nz', 'onz', 'u8', 'unit', 'tup'] if tier == 'quick' else plist
     opts = [('u', [])] + [('t', [p]) for p in sub] + [('n', [p]) for p in sub]
     for v0, v1 in itertools.product(opts, repeat=2):
         for repr in (None, 'u8', 'i8', 'C', 'C, u8', 'i16, C', 'u8, align(8)') if tier == 'quick' else (None, 'u8', 'i8', 'C', 'u16', 'isize', 'C, u8', 'align(2)', 'i16, C', 'u8, align(8)', 'C, u8,'):
